@@ -459,6 +459,11 @@ def execFuncDef (prog : List Stmt) (rest : List Stmt) (s : St) : Res (List Stmt 
     | _ => metaErr m .runtime "cannot-interpret-function-definition"
   | _ => stmtErr rest .runtime "expected-function-definition"
 
+/-- redundant parentheses around a callee are unwrapped (`(f)(x)` calls `f`) -/
+def stripGroups : Expr → Expr
+  | .group e _ => stripGroups e
+  | e => e
+
 /-! ### Evaluator and statement execution -/
 
 mutual
@@ -579,7 +584,7 @@ def evalRecord (prog : List Stmt) : Nat → List Stmt → Exprs → Exprs → Re
 def evalCall (prog : List Stmt) : Nat → List Stmt → Expr → Exprs → St → Res (Val × St)
   | 0, _, _, _, _ => .fuel
   | f+1, cur, callee, args, s =>
-    match callee with
+    match stripGroups callee with
     | .var tok _ =>
       if isBuiltin tok.lexeme then
         match evalList prog f cur args s with
